@@ -121,6 +121,38 @@ def list_scripts(rng, n):
     return out
 
 
+def comp_scripts(rng, n):
+    """list comprehensions over range(start, stop, step): every sign of step, spans that are and are not multiples of the step, empty ranges;
+    the length and every element are printed (E only)"""
+    fixed = [(9, 0, -2), (255, 0, -10), (0, 10, 3), (10, 0, -3), (5, 5, 1), (0, 0, -1), (3, 4, 5), (4, 3, -5), (-3, 4, 2), (4, -3, -2), (0, 7, 7), (7, 0, -7), (1, 8, 7), (8, 1, -6)]
+    out = []
+    for k in range(n + len(fixed)):
+        if k < len(fixed):
+            a, b, st = fixed[k]
+        else:
+            a, st = rng.randint(-6, 12), rng.choice([1, 2, 3, 4, 5, -1, -2, -3, -4, -5])
+            b = a + rng.randint(0, 14) * (1 if st > 0 else -1) * rng.choice([1, 1, 1, -1])
+        body = rng.choice(["t", "t * 2", "t + 1", "10 - t"])
+        lines = [f"ticks = [{body} for t in range({a}, {b}, {st})]", "mon.write(len(ticks))", "for i in range(len(ticks)):", "    mon.write(ticks[i])"]
+        if len(range(a, b, st)) > 0:
+            lines += ["mon.write(ticks[-1])", "mon.write(ticks[0])"]
+        if rng.random() < 0.4:
+            lines += ["while True:", "    for i in range(len(ticks)):", "        mon.write(ticks[i] + 1)"]
+        out.append((f"comprehension-range-{a}-{b}-{st}", "\n".join(lines) + "\n"))
+    return out
+
+
+SIDE_EFFECT_TUPLES = [
+    # right-hand sides of a tuple assignment are evaluated left to right, each exactly once, before any target is bound
+    ("tuple-rhs-order-2", "def sample(ch):\n    mon.write(ch)\n    return ch * 10\nk = 1\nlow, high = sample(k), sample(k + 4)\nmon.write(low)\nmon.write(high)\n"),
+    ("tuple-rhs-order-3", "def step(n):\n    mon.write(n)\n    return n + 100\na, b, c = step(1), step(2), step(3)\nmon.write(a)\nmon.write(b)\nmon.write(c)\n"),
+    ("tuple-rhs-order-existing", "def sample(ch):\n    mon.write(ch)\n    return ch * 10\nlow = 0\nhigh = 0\nwhile True:\n    low, high = sample(low + 1), sample(high + 2)\n    mon.write(low)\n    mon.write(high)\n"),
+    ("tuple-rhs-order-mixed", "def sample(ch):\n    mon.write(ch)\n    return ch + 1\nlow = 5\nlow, fresh = sample(low), sample(low * 2)\nmon.write(low)\nmon.write(fresh)\n"),
+    ("tuple-rhs-order-loop-new", "def tick(n):\n    mon.write(n)\n    return n * 2\nk = 0\nwhile True:\n    k += 1\n    p1, p2, p3 = tick(k), tick(k + 10), tick(k + 20)\n    mon.write(p1 + p2 + p3)\n"),
+    ("tuple-rhs-order-pin", "from Reduino.Actuators import Led\nled = Led(13)\ndef pulse(n):\n    led.toggle()\n    mon.write(n)\n    return n\nx = 0\ny = 0\nx, y = pulse(1), pulse(2)\nmon.write(x - y)\n"),
+]
+
+
 def same_events(a, b):
     """serial lines equal as text; a device float/double line (bit pattern) equals a Python number numerically"""
     import struct
@@ -259,7 +291,9 @@ def run(ctx: Ctx) -> int:
     extra = [(k, d, "\n".join(langgen.HEADER) + "\n" + body, False) for k, d, body in OUTSIDE] + \
             [("core:" + k, k, "\n".join(langgen.HEADER) + "\n" + body, True) for k, body in INSIDE_EXTRA] + \
             [("core:chained-compare", k, "\n".join(langgen.HEADER) + "\n" + body, True) for k, body in chain_scripts()] + \
-            [("core:list-values", k, "\n".join(langgen.HEADER) + "\n" + body, True) for k, body in list_scripts(rng, ctx.n(25, 300))]
+            [("core:list-values", k, "\n".join(langgen.HEADER) + "\n" + body, True) for k, body in list_scripts(rng, ctx.n(25, 300))] + \
+            [("core:comprehension-range", k, "\n".join(langgen.HEADER) + "\n" + body, True) for k, body in comp_scripts(rng, ctx.n(25, 300))] + \
+            [("core:tuple-rhs-order", k, "\n".join(langgen.HEADER) + "\n" + body, True) for k, body in SIDE_EFFECT_TUPLES]
     outs = [cxx.transpile(s) for _, _, s, _ in extra]
     jobs = [(cpp, 3, "") for cpp, e in outs if cpp is not None]
     it = iter(cxx.run_many(ctx, jobs))
